@@ -124,6 +124,107 @@ Definition mul_imp (d x y : obj) : prog outcome :=
   | OutOfFuel => Ret OFuel
   end.
 
+(* Context.Rem: tmp2.QuoRem(a, b, &d.Coeff) reads both (possibly pointed-to) coefficients and writes the remainder
+   into d.Coeff; d.Form, d.Exponent follow; x.Negative is read only THEN (d == x: d.Negative is still x's) *)
+Definition rem_tail (d x : obj) (pa pb : prog Z) (s : Z) : prog outcome :=
+  a <- pa ;; b <- pb ;;
+  if b =? 0 then Ret (OPanic PDivByZero) else
+  wr (d, FCoeff) (Z.rem a b) ;;;
+  match num_digits_with est (Z.quot a b) with
+  | Ok nd =>
+      if nd >? prec c then const_imp d d_nan ;;; Ret (OFlags fDivisionImpossible) else
+      wr (d, FForm) 0 ;;; wr (d, FExp) s ;;;
+      xn <- rd (x, FNeg) ;; wr (d, FNeg) xn ;;;
+      round_imp d c0
+  | Panic w => Ret (OPanic w)
+  | OutOfFuel => Ret OFuel
+  end.
+
+Definition rem_imp (d x y : obj) : prog outcome :=
+  fx <- rd (x, FForm) ;; fy <- rd (y, FForm) ;;
+  if is_nan_z fx || is_nan_z fy then set_as_nan_imp d x (Some y) else
+  if negb (fx =? 0) then const_imp d d_nan ;;; Ret (OFlags fInvalidOperation) else
+  if fy =? 1 then set_imp d x ;;; round_imp d c0 else          (* c.round(d, x) *)
+  cy0 <- rd (y, FCoeff) ;;
+  if (fy =? 0) && (cy0 =? 0) then                               (* y.IsZero() *)
+    cx0 <- rd (x, FCoeff) ;;
+    const_imp d d_nan ;;; Ret (OFlags (if (fx =? 0) && (cx0 =? 0) then fDivisionUndefined else fInvalidOperation))
+  else
+  ex <- rd (x, FExp) ;; ey <- rd (y, FExp) ;;
+  if ex =? ey then rem_tail d x (rd (x, FCoeff)) (rd (y, FCoeff)) ex
+  else if ex <? ey then
+    (if ey - ex >? MaxExponent then Ret (OErr EExponentOutOfRange) else
+     match table_exp10 (ey - ex) with
+     | Ok p => cy <- rd (y, FCoeff) ;; rem_tail d x (rd (x, FCoeff)) (Ret (cy * p)) ex
+     | Panic w => Ret (OPanic w) | OutOfFuel => Ret OFuel
+     end)
+  else
+    (if ex - ey >? MaxExponent then Ret (OErr EExponentOutOfRange) else
+     match table_exp10 (ex - ey) with
+     | Ok p => cx <- rd (x, FCoeff) ;; rem_tail d x (Ret (cx * p)) (rd (y, FCoeff)) ey
+     | Panic w => Ret (OPanic w) | OutOfFuel => Ret OFuel
+     end).
+
+(* c.quoSpecials(d, x, y, canClamp): Some outcome = handled *)
+Definition quo_specials_imp (can_clamp : bool) (d x y : obj) : prog (option outcome) :=
+  fx <- rd (x, FForm) ;; fy <- rd (y, FForm) ;;
+  if is_nan_z fx || is_nan_z fy then o <- set_as_nan_imp d x (Some y) ;; Ret (Some o) else
+  xn <- rd (x, FNeg) ;; yn <- rd (y, FNeg) ;;
+  let ng := xorb (negb (xn =? 0)) (negb (yn =? 0)) in
+  if (fx =? 1) || (fy =? 1) then
+    if (fx =? 1) && (fy =? 1) then const_imp d d_nan ;;; Ret (Some (OFlags fInvalidOperation))
+    else if fx =? 1 then const_imp d d_inf ;;; wr (d, FNeg) (b2z ng) ;;; Ret (Some (OFlags c0))
+    else
+      const_imp d (mkDec Finite false 0 0) ;;; wr (d, FNeg) (b2z ng) ;;;       (* d.SetInt64(0); d.Negative = neg *)
+      if can_clamp then wr (d, FExp) (etiny c) ;;; Ret (Some (OFlags fClamped)) else Ret (Some (OFlags c0))
+  else
+  cy <- rd (y, FCoeff) ;;
+  if (fy =? 0) && (cy =? 0) then
+    cx <- rd (x, FCoeff) ;;
+    if (fx =? 0) && (cx =? 0) then const_imp d d_nan ;;; Ret (Some (OFlags fDivisionUndefined))
+    else const_imp d d_inf ;;; wr (d, FNeg) (b2z ng) ;;; Ret (Some (OFlags fDivisionByZero))
+  else if prec c =? 0 then Ret (Some (OErr EZeroPrecision))
+  else Ret None.
+
+(* Context.QuoInteger: d.Coeff.Quo(a, b); d.Form = Finite; the digit count of d itself decides DivisionImpossible
+   (d.Set(decimalNaN)); d.Exponent = 0 and d.Negative = neg are written last - also on the NaN *)
+Definition qi_tail (d : obj) (ng : bool) (pa pb : prog Z) : prog outcome :=
+  a <- pa ;; b <- pb ;;
+  if b =? 0 then Ret (OPanic PDivByZero) else
+  wr (d, FCoeff) (Z.quot a b) ;;; wr (d, FForm) 0 ;;;
+  q <- rd (d, FCoeff) ;;
+  match num_digits_with est q with
+  | Ok nd =>
+      (if nd >? prec c then const_imp d d_nan else Ret tt) ;;;
+      wr (d, FExp) 0 ;;; wr (d, FNeg) (b2z ng) ;;;
+      Ret (OFlags (if nd >? prec c then fDivisionImpossible else c0))
+  | Panic w => Ret (OPanic w)
+  | OutOfFuel => Ret OFuel
+  end.
+
+Definition quo_integer_imp (d x y : obj) : prog outcome :=
+  sp <- quo_specials_imp false d x y ;;
+  match sp with
+  | Some o => Ret o
+  | None =>
+      xn <- rd (x, FNeg) ;; yn <- rd (y, FNeg) ;;
+      let ng := xorb (negb (xn =? 0)) (negb (yn =? 0)) in
+      ex <- rd (x, FExp) ;; ey <- rd (y, FExp) ;;
+      if ex =? ey then qi_tail d ng (rd (x, FCoeff)) (rd (y, FCoeff))
+      else if ex <? ey then
+        (if ey - ex >? MaxExponent then Ret (OErr EExponentOutOfRange) else
+         match table_exp10 (ey - ex) with
+         | Ok p => cy <- rd (y, FCoeff) ;; qi_tail d ng (rd (x, FCoeff)) (Ret (cy * p))
+         | Panic w => Ret (OPanic w) | OutOfFuel => Ret OFuel
+         end)
+      else
+        (if ex - ey >? MaxExponent then Ret (OErr EExponentOutOfRange) else
+         match table_exp10 (ex - ey) with
+         | Ok p => cx <- rd (x, FCoeff) ;; qi_tail d ng (Ret (cx * p)) (rd (y, FCoeff))
+         | Panic w => Ret (OPanic w) | OutOfFuel => Ret OFuel
+         end)
+  end.
+
 (* Context.Abs / Neg / Round *)
 Definition ctx_abs_imp (d x : obj) : prog outcome :=
   fx <- rd (x, FForm) ;;
